@@ -173,6 +173,20 @@ Theorem C02_references_reach_dependencies : forall snake camel screaming bd pkg 
 Proof. exact compile_refs_imported. Qed.
 Print Assumptions C02_references_reach_dependencies.
 
+(* ... and nothing else: every dependency of every generated file of a compiled package is the
+   defining file of a reference written in the declarations that go to that file (main /
+   .service / .topic), or one of the fixed files of the j5 / protobuf infrastructure
+   (J5sDepsProofs.infra_files: ext annotations, validation, well-known types, HTTP annotations,
+   HttpBody, messaging annotations, Empty) *)
+Theorem C02_dependencies_only_what_is_referenced : forall snake camel screaming bd pkg D,
+  compile_package snake camel screaming bd pkg = Ok D ->
+  forall df, In df D -> exists f im k,
+    In (BJ f) bd /\ j5s_pkg f = pkg /\ import_map (jf_imports f) [] = Ok im /\
+    fl_path df = kind_path f k /\
+    only_refs (mkEnv (j5s_pkg f) im (pkg_exports camel bd)) (kind_refs f k) (fl_deps df).
+Proof. exact compile_deps_only. Qed.
+Print Assumptions C02_dependencies_only_what_is_referenced.
+
 (* ---- type names after the link step (fix 2ef7c92: names without a leading dot are qualified
    before linking): the name Root.Path.Name the converter writes for an inline type becomes
    .<package>.Root.Path.Name - whatever else is nested in the file - and the bare name of a map
